@@ -31,7 +31,7 @@ class PCTSPAdapter(RoutingAdapter):
     shard = 150
 
     def variants(self, tier):
-        return [{"num_loc": n} for n in ([1, 3, 4, 7] if tier == "quick" else [1, 2, 3, 4, 5, 8, 12, 20])]
+        return [{"num_loc": n} for n in ([1, 3, 4, 7] if tier == "quick" else [1, 2, 3, 4, 6, 10, 20])]
 
     def make_env(self, variant):
         from rl4co.envs import PCTSPEnv
@@ -44,7 +44,7 @@ class PCTSPAdapter(RoutingAdapter):
     def instances(self, env, variant, rng, tier):
         n = variant["num_loc"]
         out = []
-        k = 3 if tier == "quick" else 8
+        k = 3 if tier == "quick" else 6
         torch.manual_seed(rng.randrange(1 << 30))
         td = env.generator(batch_size=[k])
         for r in range(k):
